@@ -112,6 +112,17 @@ Proof.
 Qed.
 Print Assumptions C19_gtp2_shape.
 
+(* the registered decoder decodeGTPv2: no panic; the layer is added exactly when it returns nil, and then hands on LayerTypePayload *)
+Theorem C19_gtp2_decoder_no_panic : forall data, bytes_ok data ->
+  let '(l, added, nx, o, tr) := g2_decode_fn data in
+  is_panic o = false /\ o <> Err 99 /\ (added = true <-> o = Ok tt) /\ (o = Ok tt -> nx = Some 0).
+Proof.
+  intros data Hb. unfold g2_decode_fn. destruct (C19_gtp2_no_panic false g2_fresh data Hb) as [P1 P2]. fold g2_decode_into in P1, P2.
+  destruct (g2_decode_into g2_fresh data) as [[l o] tr]. cbn [fst snd] in P1, P2.
+  destruct o as [[]|e|s]; repeat split; intros; try discriminate; try reflexivity; try assumption.
+Qed.
+Print Assumptions C19_gtp2_decoder_no_panic.
+
 Theorem C01_gtp2_render_total : forall orig old data, g2_render_panics (fst (fst (g2_decode_gen orig old data))) = false.
 Proof. reflexivity. Qed.
 
